@@ -1054,6 +1054,7 @@ func lemmaLastEncodePrefix(opts []Option, o Option, i int) {
 //@   ensures dryfs [C09]: fsOps == old(fsOps) && fsFailed == old(fsFailed)
 //@   carries rootStream: rootChan
 //@ closure gtree.treePipeline.outputProgrammably#1
+//@   closes roots [C12]: rootStream
 //@   requires nn: root != nil && root.hierarchy == 1
 //@   modifies rcSentOK
 //@ func gtree.treePipeline.walkProgrammably
@@ -1063,6 +1064,7 @@ func lemmaLastEncodePrefix(opts []Option, o Option, i int) {
 //@   param callback follows walkCallback
 //@   carries rootStream: rootChan
 //@ closure gtree.treePipeline.walkProgrammably#1
+//@   closes roots [C12]: rootStream
 //@   requires nn: root != nil && root.hierarchy == 1
 //@   modifies rcSentOK
 
@@ -1568,6 +1570,7 @@ func fsExistsAt(p string) bool { _, err := os.Stat(p); return !os.IsNotExist(err
 //@   ensures dryrun [C09]: cfg.dryrun ==> fsOps == old(fsOps) && fsFailed == old(fsFailed)
 //@   carries rootStream: rootChan
 //@ closure gtree.treePipeline.mkdirProgrammably#1
+//@   closes roots [C12]: rootStream
 //@   requires nn: root != nil && root.hierarchy == 1
 //@   modifies rcSentOK
 
@@ -1757,6 +1760,7 @@ func specVerifyText(strict bool, extra, noExists []string) string {
 //@   ensures fsframe [C08]: fsOps == old(fsOps) && fsFailed == old(fsFailed)
 //@   carries rootStream: rootChan
 //@ closure gtree.treePipeline.verifyProgrammably#1
+//@   closes roots [C12]: rootStream
 //@   requires nn: root != nil && root.hierarchy == 1
 //@   modifies rcSentOK
 
